@@ -73,6 +73,21 @@ def drive (d : DSt) (toks : List String) : DSt × String :=
     match parseReads rest with
     | some [r] => (d, showBool (d.t.due r))
     | _ => (d, "bad-op")
+  | "update_f" :: f :: rest =>
+    -- update with a raising callback: `update_f <pos>|none r=[r1,r2]`
+    let failAt : Option (Option Nat) := if f = "none" then some none else f.toNat?.map some
+    match failAt, (parseReads rest).bind reads3 with
+    | some fa, some (r1, r2, _) =>
+      let u := d.t.updateF r1 r2 fa
+      ({ d with t := u.st }, s!"ran={showNats u.ran} raised={showBool u.raised} reads={u.reads}")
+    | _, _ => (d, "bad-op")
+  | ["step_update_f", f] =>
+    let failAt : Option (Option Nat) := if f = "none" then some none else f.toNat?.map some
+    match failAt with
+    | some fa =>
+      let u := d.s.updateF fa
+      ({ d with s := u.st }, s!"ran={showNats u.ran} raised={showBool u.raised}")
+    | none => (d, "bad-op")
   | "update" :: rest =>
     match (parseReads rest).bind reads3 with
     | some (r1, r2, r3) =>
